@@ -177,6 +177,9 @@ def run_c02(tier, seed):
     res = vlib.run_resumable(binary, ["--prop", "c02", "--seed", str(seed), "--cases", str(200 if tier == "quick" else 8000)], 8,
                              timeout=300 if tier == "quick" else 7200, work=work)
     counters, distinct, samples, stats = vlib.collect_runs(v, res)
+    # the same round trips (reads of both ends cut short) under ASan+UBSan+LeakSanitizer: what the client does with its receive buffer, its
+    # parser and its connection objects while a response arrives in pieces is invisible to the comparison of the parsed message
+    _asan_pass(v, work, "client", ["--prop", "c02", "--seed", str(seed + 41), "--cases", str(40 if tier == "quick" else 1500)], 4, tier, stats, distinct)
     v.assumptions += ["components that need no escaping (token characters in names and query, arbitrary octets in bodies); framework additions (Host, User-Agent, Content-Length, Connection, empty Cookie header) are allowed",
                       "request bodies <= 16 KiB (the experimental client cannot resume a partial send)"]
     return _finish(v, work, counters, distinct, samples, stats,
